@@ -21,7 +21,14 @@ namespace NoKV.Cluster
 structure ReadCfg where
   /-- `LinearizableRead` is called before the applier -/
   readIndexFirst : Bool
-  /-- `WaitApplied(index)` with the returned index sits between the two -/
+  /-- between the two the read waits until the serving store has applied the confirmed index:
+  `ReadCommand` calls `WaitApplied(ctx, index)` with the index `LinearizableRead` returned and
+  checks its error (fact `read.waitsApplied`), and `Peer.WaitApplied` waits on the apply
+  watermark for exactly that index - no clamp to what the apply loop has begun so far (facts
+  `peer.waitAppliedExact`, `peer.waitAppliedUsesMark`).  This is the `rdWait` step of `flowOk`:
+  it may only be taken when `idx ≤ applied store`.  It carries weight because `handleReady`
+  releases readers before it begins to apply the entries of the same Ready (fact
+  `peer.readyOrder`) and raft may page a commit backlog over several Readys. -/
   waitsApplied : Bool
   /-- what entitles us to assume `ReadIndexContract` of etcd/raft at all: every
   `LinearizableRead` issues a `RawNode.ReadIndex` of its own (fresh request context, no sharing
